@@ -193,6 +193,16 @@ def check_emit(fn, p, late=False):
     want = R.encode(fn, p)
     if not fails and octets != want:
         fails.append(("emit:%s:differs" % name, "params %r: library %s..., Annex J %s..." % (_short(p), octets[:40].hex(), want[:40].hex())))
+    if not fails:
+        # the same message object sent once more (what a BBMD does for every further peer and foreign device) gives the same frame
+        try:
+            del L.bottom.got[:]
+            L.top.request(x)
+            again = bytes(L.bottom.got[0].pduData) if L.bottom.got else None
+        except Exception as err:
+            again = "raised %r" % (err,)
+        if again != octets:
+            fails.append(("emit:%s:second-send-differs" % name, "params %r: first frame %s..., the same object sent again %s..." % (_short(p), octets[:40].hex(), again[:40].hex() if isinstance(again, bytes) else again)))
     if fails:
         return fails, octets
     f2 = check_receive(octets, expect=(fn, norm(p)))
